@@ -24,12 +24,14 @@
 // The choices actually made are printed (`sched=`), so every run can be replayed exactly (`replay=`).
 //
 // Case line:   X <nv> | <decls> | <v> <ops> | <v> <ops> | ... | @ <key=value ...>
-//   decls:  mutex [retries] ; sem [count] ; cv ; rwlock [retries of its internal mutex]      (index = position)
+//   decls:  mutex [retries [contending 0|1]] ; rmutex [retries [contending]] (photon::recursive_mutex) ; sem [count] ; cv ;
+//           rwlock [retries of its internal mutex]                                            (index = position)
 //   thread section: the vCPU it lives on, then ops separated by ';' (thread ids = section order, T0..)
-//   ops:  lock m t | try_lock m | unlock m | sem_wait s n t | sem_signal s n | cv_wait c m t | notify_one c |
+//   ops:  lock m t | try_lock m | unlock m | rlock m t | rtry m | runlock m (recursive_mutex: lock / try_lock / unlock) | sem_wait s n t | sem_signal s n | cv_wait c m t | notify_one c |
 //         notify_all c | rw_lock l mode(0=R,1=W) t | rw_unlock l | interrupt k e | shutdown k flag | tick d | yield | usleep t | nop
 //     t = -1 means no timeout.  unlock / cv_wait / rw_unlock by a thread that does not hold the lock
-//     (an earlier timed lock failed) are not executed: result -2 (SKIPPED).
+//     (an earlier timed lock failed) are not executed: result -2 (SKIPPED).  runlock is executed while the script's own nesting
+//     depth (successful rlock / rtry minus runlock) is > 0.
 //   schedule keys: mode=pct|rand|rr seed=<n> d=<n> k=<n> q=<percent> pre=<item,item,..> replay=<digits>
 //     pre items:  p      one decision for participant p          p*n    n decisions
 //                 p!     p until it is disabled (idle / waits for a held spinlock)
@@ -42,7 +44,7 @@
 //            Q+<q>:<tid> / Q-<q>:<tid>  thread linked into / unlinked from a wait queue (q = m0 s1 c2 r3c r3m), logged at the
 //            instant of the list operation (hooks LS_WAITQ_PUSH / LS_WAITQ_ERASE);  X<tid>  sleep of tid expired (LS_TH_TIMEOUT)
 //            N<tid>:<by>  the SLEEPING thread tid is woken by thread `by` (LS_TH_INTERRUPT: interrupt, shutdown, notify, hand-off)
-//   aux: lock/try_lock/cv_wait: 1 iff mutex.owner == CURRENT at return; sem ops: count; rw ops: state; else 0
+//   aux: lock/try_lock/cv_wait/rlock/rtry AND unlock/runlock: 1 iff mutex.owner == CURRENT at return; sem ops: count; rw ops: state; else 0
 //   notify_one returns 1 + tid of the thread it woke (0 = nullptr).
 // Prefixes: HANG / HANG(cpu) / CRASH(sigN) / DEADLOCK (every participant waits for a spinlock) / NONDET.
 #include "e4s_repo.h"
@@ -77,7 +79,7 @@ struct Item {
 struct Obj { std::string kind; void* p = nullptr; photon::thread_list* wq = nullptr; };
 struct TInfo {
     int vcpu = 0; std::vector<Item> ops; thread* th = nullptr; int pc = 0; bool done = false;
-    std::set<int> held; std::map<int, int> rwheld;
+    std::set<int> held; std::map<int, int> rwheld; std::map<int, int> rdepth;
 };
 struct Res { int64_t ret; int err; int64_t aux; };
 enum PState { RUNNING = 0, PARKED = 1 };
@@ -148,6 +150,8 @@ static std::string result(const char* prefix) {
     for (size_t i = 0; i < O.size(); i++) {
         auto& o = O[i];
         if (o.kind == "mutex") { auto m = (photon::mutex*)o.p; s += "m" + std::to_string(i) + ":o=" + tname(m->owner.load()) + ",q=" + qdump(o.wq) + " "; }
+        else if (o.kind == "rmutex") { auto m = (photon::recursive_mutex*)o.p;
+            s += "m" + std::to_string(i) + ":o=" + tname(m->owner.load()) + ",rc=" + std::to_string((int)m->recursive_count) + ",q=" + qdump(o.wq) + " "; }
         else if (o.kind == "sem") { auto m = (photon::semaphore*)o.p; s += "s" + std::to_string(i) + ":c=" + std::to_string(m->m_count.load()) + ",q=" + qdump(o.wq) + " "; }
         else if (o.kind == "cv") { s += "c" + std::to_string(i) + ":q=" + qdump(o.wq) + " "; }
         else if (o.kind == "rwlock") { auto r = (photon::rwlock*)o.p;
@@ -315,7 +319,16 @@ static Res exec_op(int self, const Item& op) {
         int r = m->try_lock(); bool own = m->owner.load() == get_current(); if (r == 0) me.held.insert((int)op.a(0));
         return Res{r, 0, own}; }
     if (n == "unlock") { if (!is(op.a(0), "mutex") || !me.held.count((int)op.a(0))) return Res{SKIPPED, 0, 0};
-        auto m = (photon::mutex*)O[op.a(0)].p; me.held.erase((int)op.a(0)); m->unlock(); return Res{0, 0, 0}; }
+        auto m = (photon::mutex*)O[op.a(0)].p; me.held.erase((int)op.a(0)); m->unlock();
+        bool own = m->owner.load() == get_current(); return Res{0, 0, own}; }
+    if (n == "rlock" || n == "rtry") { if (!is(op.a(0), "rmutex")) return Res{SKIPPED, 0, 0};
+        auto m = (photon::recursive_mutex*)O[op.a(0)].p;
+        int r = n == "rlock" ? m->lock(photon::Timeout(op.u(1))) : m->try_lock(); int e = get_errno();
+        bool own = m->owner.load() == get_current(); if (r == 0) me.rdepth[(int)op.a(0)]++;
+        return Res{r, r < 0 && n == "rlock" ? e : 0, own}; }
+    if (n == "runlock") { if (!is(op.a(0), "rmutex") || me.rdepth[(int)op.a(0)] <= 0) return Res{SKIPPED, 0, 0};
+        auto m = (photon::recursive_mutex*)O[op.a(0)].p; me.rdepth[(int)op.a(0)]--; m->unlock();
+        bool own = m->owner.load() == get_current(); return Res{0, 0, own}; }
     if (n == "sem_wait") { if (!is(op.a(0), "sem")) return Res{SKIPPED, 0, 0};
         auto s = (photon::semaphore*)O[op.a(0)].p;
         int r = s->wait_interruptible((uint64_t)op.a(1, 1), photon::Timeout(op.u(2))); int e = get_errno();
@@ -350,7 +363,7 @@ static Res exec_op(int self, const Item& op) {
     if (n == "nop") return Res{0, 0, 0};
     return Res{-99, 0, 0};
 }
-static const char* OPS[] = {"lock", "try_lock", "unlock", "sem_wait", "sem_signal", "cv_wait", "notify_one", "notify_all", "rw_lock",
+static const char* OPS[] = {"lock", "try_lock", "unlock", "rlock", "rtry", "runlock", "sem_wait", "sem_signal", "cv_wait", "notify_one", "notify_all", "rw_lock",
                             "rw_unlock", "interrupt", "shutdown", "tick", "yield", "usleep", "nop"};
 
 static void* thread_body(void* arg) {
@@ -437,7 +450,8 @@ static bool parse_case(const std::string& line) {
     if (!parse_items(secs[1], decls)) return false;
     for (auto& d : decls) {
         Obj o; o.kind = d.name;
-        if (d.name == "mutex") { auto m = new photon::mutex((uint16_t)d.a(0, 0)); o.p = m; o.wq = (photon::thread_list*)&m->q; }
+        if (d.name == "mutex") { auto m = new photon::mutex((uint16_t)d.a(0, 0), d.a(1, 0) != 0); o.p = m; o.wq = (photon::thread_list*)&m->q; }
+        else if (d.name == "rmutex") { auto m = new photon::recursive_mutex((uint16_t)d.a(0, 0), d.a(1, 0) != 0); o.p = m; o.wq = (photon::thread_list*)&m->q; }
         else if (d.name == "sem") { auto s = new photon::semaphore((uint64_t)d.a(0, 0)); o.p = s; o.wq = (photon::thread_list*)&s->q; }
         else if (d.name == "cv") { auto c = new photon::condition_variable(); o.p = c; o.wq = (photon::thread_list*)&c->q; }
         else if (d.name == "rwlock") { auto r = new photon::rwlock(); r->mtx.retries = (uint16_t)d.a(0, 100); o.p = r; o.wq = (photon::thread_list*)&r->cvar.q; }
@@ -495,6 +509,7 @@ static void child_main(const std::string& line, int outfd, bool trace) {
     for (size_t i = 0; i < O.size(); i++) {
         auto& o = O[i]; std::string n = std::to_string(i);
         if (o.kind == "mutex") { auto m = (photon::mutex*)o.p; g_lname[&m->splock] = "m" + n + ".sp"; g_lname[&m->q.lock] = "m" + n + ".q"; }
+        else if (o.kind == "rmutex") { auto m = (photon::recursive_mutex*)o.p; g_lname[&m->splock] = "m" + n + ".sp"; g_lname[&m->q.lock] = "m" + n + ".q"; }
         else if (o.kind == "sem") { auto m = (photon::semaphore*)o.p; g_lname[&m->splock] = "s" + n + ".sp"; g_lname[&m->q.lock] = "s" + n + ".q"; }
         else if (o.kind == "cv") { auto m = (photon::condition_variable*)o.p; g_lname[&m->q.lock] = "c" + n + ".q"; }
         else if (o.kind == "rwlock") { auto r = (photon::rwlock*)o.p; g_lname[&r->mtx.splock] = "r" + n + ".msp"; g_lname[&r->mtx.q.lock] = "r" + n + ".mq"; g_lname[&r->cvar.q.lock] = "r" + n + ".cq"; }
@@ -503,7 +518,7 @@ static void child_main(const std::string& line, int outfd, bool trace) {
     for (size_t i = 0; i < O.size(); i++) {
         auto& o = O[i]; std::string n = std::to_string(i);
         if (o.kind == "rwlock") { auto r = (photon::rwlock*)o.p; g_qname[&r->cvar.q] = "r" + n + "c"; g_qname[&r->mtx.q] = "r" + n + "m"; }
-        else g_qname[o.wq] = (o.kind == "mutex" ? "m" : o.kind == "sem" ? "s" : "c") + n;
+        else g_qname[o.wq] = (o.kind == "mutex" || o.kind == "rmutex" ? "m" : o.kind == "sem" ? "s" : "c") + n;
     }
     for (int v = 0; v < NV; v++) {
         g_lname[&MAINTH[v]->lock] = "M" + std::to_string(v); g_lname[&VC[v]->idle_worker->lock] = "I" + std::to_string(v);
